@@ -203,6 +203,7 @@ def oracle_sequentialize(t, io):
     if by:
         return f"leaves {sorted(by)} appear from nowhere"
     voice_of = {l: p[0] for (_, _, l, p) in ft}
+    f3 = None
     for i, s in enumerate(sp.kids(r)):
         if s[0] != "P":
             return f"slice {i} is not a simultaneity"
@@ -218,9 +219,16 @@ def oracle_sequentialize(t, io):
                 last = min(src)
         ds = [sp.dur(v) for v in sp.kids(s)]
         off = [d for d in ds if d != max(ds)]
-        if any(d != 0 for d in off):    # all off-length voices of length 0: known limitation F3
+        if any(d != 0 for d in off):
             return f"slice {i} is not rectangular: voice durations {ds}"
-    return None
+        if off:
+            # every off-length voice has length 0: known finding F3 (matched by `known`)
+            f3 = f"[F3] slice {i} is not rectangular: zero-length voice next to voices of length {max(ds)}"
+    return f3
+
+
+def known(f, case, msg, io):
+    return f.get("id") == "F3" and (msg or "").startswith("[F3]")
 
 
 def ext_check(t, r, d, path="event"):
